@@ -255,3 +255,56 @@ func init() {
 	intrinsics["time.Sleep"] = func(fr *frame, args []value) value { return nil }
 	intrinsics["runtime.Gosched"] = func(fr *frame, args []value) value { return nil }
 }
+
+
+// errors.Is without internal/reflectlite: identity on comparable dynamic
+// types, then the Is / Unwrap methods of the chain (depth-bounded).
+func errorsIs(fr *frame, err, target iface, depth int) bool {
+	if depth > 32 {
+		fr.ex().unsupported("errors.Is: chain deeper than 32")
+	}
+	if err.t == nil || target.t == nil {
+		return err.t == nil && target.t == nil
+	}
+	if types.Comparable(target.t) && sameType(err.t, target.t) {
+		switch eq := equalsV(fr.ex(), err.t, err.v, target.v).(type) {
+		case bool:
+			if eq {
+				return true
+			}
+		default:
+			fr.ex().unsupported("errors.Is: symbolic comparison")
+		}
+	}
+	ms := fr.i.prog.MethodSets.MethodSet(err.t)
+	if sel := ms.Lookup(nil, "Is"); sel != nil {
+		if sig, ok := sel.Type().(*types.Signature); ok && sig.Params().Len() == 1 && sig.Results().Len() == 1 {
+			if r, ok := callMethod(fr.i, fr, err, "Is", target).(bool); ok && r {
+				return true
+			}
+		}
+	}
+	if sel := ms.Lookup(nil, "Unwrap"); sel != nil {
+		sig, _ := sel.Type().(*types.Signature)
+		if sig != nil && sig.Params().Len() == 0 && sig.Results().Len() == 1 {
+			r := callMethod(fr.i, fr, err, "Unwrap")
+			switch r := r.(type) {
+			case iface:
+				return errorsIs(fr, r, target, depth+1)
+			case []value:
+				for _, e := range r {
+					if ei, ok := e.(iface); ok && errorsIs(fr, ei, target, depth+1) {
+						return true
+					}
+				}
+			}
+		}
+	}
+	return false
+}
+
+func init() {
+	intrinsics["errors.Is"] = func(fr *frame, args []value) value {
+		return errorsIs(fr, args[0].(iface), args[1].(iface), 0)
+	}
+}
